@@ -10,13 +10,16 @@ import sys
 import time
 
 VERIF = os.path.dirname(os.path.dirname(os.path.abspath(__file__)))
-REPO = "/repo"
+# what is simulated is built from /repo's working tree; VERIF_REPO / VERIF_TARGET exist only so
+# that mutation runs can point the same machinery at a scratch worktree
+REPO = os.environ.get("VERIF_REPO", "/repo")
+TARGET = os.environ.get("VERIF_TARGET", os.path.join(VERIF, "target"))
 BUILD = os.path.join(VERIF, "build")
 EVIDENCE = os.path.join(VERIF, "evidence")
 REPLAYS = os.path.join(VERIF, "replays")
 KNOWN_FINDINGS = os.path.join(VERIF, "known_findings.json")
-TOPOSIM = os.path.join(VERIF, "target", "toposim", "release", "toposim")
-CAPY = os.path.join(VERIF, "target", "capy", "release", "capy")
+TOPOSIM = os.path.join(TARGET, "toposim", "release", "toposim")
+CAPY = os.path.join(TARGET, "capy", "release", "capy")
 
 DEFAULT_SEED = 20260921
 
@@ -98,7 +101,7 @@ def build_capy():
     CAPY_VERIF_SCHED_TRACE is set)"""
     t0 = time.time()
     _run(["cargo", "build", "--release", "-p", "capy", "--offline",
-          "--target-dir", os.path.join(VERIF, "target", "capy")],
+          "--target-dir", os.path.join(TARGET, "capy")],
          cwd=REPO,
          env={"RUSTFLAGS": "--cfg capy_verif --check-cfg cfg(capy_verif)"},
          what="building capy with hooks")
@@ -108,12 +111,23 @@ def build_capy():
 
 
 def build_toposim():
+    import shutil
     d = os.path.join(VERIF, "toposim")
+    if REPO != "/repo":
+        # mutation runs: same crate, path dependency pointed at the scratch worktree
+        d2 = os.path.join(TARGET, "toposim-src")
+        shutil.rmtree(d2, ignore_errors=True)
+        shutil.copytree(d, d2, ignore=shutil.ignore_patterns(".cargo"))
+        with open(os.path.join(d2, "Cargo.toml")) as f:
+            text = f.read().replace('"/repo/crates/topo"', '"%s/crates/topo"' % REPO)
+        with open(os.path.join(d2, "Cargo.toml"), "w") as f:
+            f.write(text)
+        d = d2
     lock = os.path.join(d, "Cargo.lock")
     if not os.path.exists(lock):
-        import shutil
         shutil.copy(os.path.join(REPO, "Cargo.lock"), lock)
-    _run(["cargo", "build", "--release", "--offline"], cwd=d, what="building toposim")
+    _run(["cargo", "build", "--release", "--offline", "--target-dir", os.path.join(TARGET, "toposim")],
+         cwd=d, what="building toposim")
     if not os.path.exists(TOPOSIM):
         harness_fail("no toposim binary after the build")
 
